@@ -27,7 +27,8 @@ EXPLANATION = (
     "referenced by a core_checks list (and every override in a subclass) carries @validate_scope with the scope "
     "the reason-code map assigns to the reason codes it emits; (R4) every path from a public validate entry to a "
     "backend validate call is gated by validation_enabled and the disabled branch returns the argument itself; "
-    "(R5) get_validation_depth decision table and its use around every polars backend validate call; (R6) no backend function reads validation_depth by itself outside the @validate_scope machinery and the enumerated coercion-mode readers, so the verdict inside one scope does not depend on the depth. It does NOT "
+    "(R5) get_validation_depth decision table and its use around every polars backend validate call; (R6) no backend function reads validation_depth by itself outside the @validate_scope machinery and the enumerated coercion-mode readers, so the verdict inside one scope does not depend on the depth. (R7) the polars coercion stages choose the same coercion mode (try_coerce vs lazy coerce) under DATA_ONLY and SCHEMA_AND_DATA - decision table evaluated over the ValidationDepth members. " 
+    "It does NOT "
     "decide the verdict equalities over data (accept_SAD <=> accept_SO and accept_DO)."
 )
 LEVEL_RULE = ("obligations are (rule, function, construct) triples enumerated from the current tree; distinct = "
